@@ -40,6 +40,9 @@ func (fr *frame) frameCheck(st *State, arrName string, ref Term, reach string, p
 	if fc.c == nil || fc.modEvery || fc.modAll[arrName] {
 		return
 	}
+	if po := fc.c.Opts["modifies-outside"]; po != "" && !fc.ownedBy(arrName, po) {
+		return
+	}
 	o := fc.oblig("frame", "frame."+arrName, fc.allowed(fr.old, arrName, ref.S), reach, pos, nil)
 	o.Src = "write to " + arrName + " must be covered by the modifies clause"
 }
@@ -48,6 +51,9 @@ func (fr *frame) frameCheck(st *State, arrName string, ref Term, reach string, p
 func (fr *frame) frameGoal(arrName string, ref Term) string {
 	fc := fr.fc
 	if fc.c == nil || fc.modEvery || fc.modAll[arrName] {
+		return ""
+	}
+	if po := fc.c.Opts["modifies-outside"]; po != "" && !fc.ownedBy(arrName, po) {
 		return ""
 	}
 	return fc.allowed(fr.old, arrName, ref.S)
@@ -198,6 +204,12 @@ func (fr *frame) exec(in ssa.Instruction, st *State, reach string) {
 		base := fr.val(i.X)
 		bt, ok := base.(Term)
 		if !ok {
+			if pe, isPE := base.(*PtrSliceElem); isPE && pe.Field == "" && pe.ElemT != nil {
+				stT := ptrElem(i.X.Type())
+				f := stT.Underlying().(*types.Struct).Field(i.Field)
+				fr.vals[i] = &PtrSliceElem{Slice: pe.Slice, Idx: pe.Idx, ElemT: pe.ElemT, Field: f.Name(), FieldT: f.Type()}
+				return
+			}
 			if pf, isPF := base.(*PtrField); isPF {
 				// nested struct field: only sync primitives are supported
 				stT := ptrElem(i.X.Type())
@@ -233,11 +245,11 @@ func (fr *frame) exec(in ssa.Instruction, st *State, reach string) {
 			if isSlc(b.Sort) {
 				idx := fr.term(i.Index)
 				fr.safety("index", fmt.Sprintf("(and (<= 0 %s) (< %s (slen %s)))", idx.S, idx.S, b.S), reach, i.Pos(), "slice index in range")
-				fr.vals[i] = &PtrSliceElem{b, idx, i.X.Type().Underlying().(*types.Slice).Elem()}
+				fr.vals[i] = &PtrSliceElem{Slice: b, Idx: idx, ElemT: i.X.Type().Underlying().(*types.Slice).Elem()}
 				return
 			}
 			fc.unsupported("IndexAddr on %s (%s) in %s", i.X.Name(), b.Sort, fr.fn.Name())
-			fr.vals[i] = &PtrSliceElem{b, Term{"0", SInt}, nil}
+			fr.vals[i] = &PtrSliceElem{Slice: b, Idx: Term{"0", SInt}}
 		default:
 			fc.unsupported("IndexAddr on %T in %s", base, fr.fn.Name())
 		}
@@ -600,6 +612,10 @@ func (fr *frame) execUnOp(i *ssa.UnOp, st *State, reach string) {
 			fr.vals[i] = pt.Cell.Elems[pt.Idx]
 		case *PtrSliceElem:
 			v := fc.slcAt(pt.Slice, pt.Idx.S)
+			if pt.Field != "" {
+				fr.vals[i] = Term{fmt.Sprintf("(%s$%s %s)", v.Sort, pt.Field, v.S), fc.e.sortOf(pt.FieldT)}
+				return
+			}
 			if v.Sort == SInt && pt.ElemT != nil && isRefType(pt.ElemT) {
 				v = fc.define(i.Name(), v)
 				fc.assumeAllocated(st, v)
@@ -916,4 +932,20 @@ func (fc *FnCtx) slcAt(s Term, j string) Term {
 		fc.decls = append(fc.decls, fmt.Sprintf("(assert (forall ((s %s) (j Int)) (! (= (%s s j) (select (sarr s) (+ (soff s) j))) :pattern ((%s s j)))))", s.Sort, name, name))
 	}
 	return Term{fmt.Sprintf("(%s %s %s)", name, s.S, j), es}
+}
+
+// storeRefNoFrameAny: initialise a freshly allocated object of type elemT with value v.
+func (fr *frame) storeRefNoFrameAny(st *State, ref Term, elemT types.Type, v Term) {
+	fc := fr.fc
+	if _, ok := fr.structFields(elemT); ok && !isTimeType(elemT) {
+		sn := fc.e.sortOf(elemT)
+		si := fc.e.structs[typeKey(elemT)]
+		for i, f := range si.fields {
+			n := fieldArrName(elemT, f.Name())
+			a := fc.heapGet(st, n, arr(SInt, si.sorts[i]))
+			fc.heapSet(st, n, Term{store(a.S, ref.S, fmt.Sprintf("(%s$%s %s)", sn, f.Name(), v.S)), a.Sort})
+		}
+		return
+	}
+	fr.storeRefNoFrame(st, ref, elemT, v)
 }
